@@ -634,6 +634,8 @@ func cdrScenarios(prop, tier string) []cdrScenario {
 		{name: "1ue-1sess-bulk900-1300", depth: d(5, 6), maxSess: 1, bulks: []int{900, 1300}, prefix: []Op{mkCreate(0, "smf1")}},
 		{name: "1ue-1sess-bulk2000-4000", depth: d(3, 4), maxSess: 1, bulks: []int{2000, 4000}, prefix: []Op{mkCreate(0, "smf1")}},
 		{name: "1ue-2sess-bulk1300", depth: d(4, 5), maxSess: 2, bulks: []int{1300}},
+		// an older session that fills its record over several requests next to a younger one of the same subscriber
+		{name: "1ue-2sess-bulk2000", depth: d(4, 5), maxSess: 2, bulks: []int{2000}},
 		{name: "2ue-small", depth: d(3, 5), twoUE: true, maxSess: 2, small: true},
 	}
 }
